@@ -44,7 +44,7 @@ def gen_budget(H, depth=0):
     if k == "evals":
         return ["evals", 1 + H.draw(60)]
     if k == "target":
-        return ["target", float(H.pick([3, 7, 50, 1000]))]
+        return ["target", float(H.pick([3, 7, 50, 1000, 10**5, 10**7]))]
     return ["time", H.pick([0.001, 0.05, 0.5, 2.0])]
 
 
@@ -136,6 +136,9 @@ def run(ctx):
             return hit_value
         # never within 1 of any target
         v = float(2 * (i % 11) + 100)
+        big = [t for t in targets if t >= 10**4]
+        if big and i % 3 == 1:
+            v = big[i % len(big)] + (1.0 if i % 2 else -1.5)  # a near miss, in absolute terms, on a large target
         while any(abs(v - t) < 1 for t in targets):
             v += 2.0
         return v
